@@ -131,6 +131,8 @@ theorem pi_emit (s : State) (e : Event) (h : isProtEv e = false) : pi (emit s e)
       · rw [ih]; simp; rfl
       · rfl
 
+@[simp] theorem pi_underflow (s : State) (b : Bool) : pi { s with underflow := b } = pi s := rfl
+
 @[simp] theorem pi_release (s : State) (p : Peer) (n : Nat) : pi (release s p n) = pi s := by
   unfold release
   simp
